@@ -7,7 +7,10 @@ EXTENDS EventAuth
 HField(pl, f) == IF pl[f].k = "absent" THEN DefaultOf(f) ELSE pl[f].n
 HForUser(pl, u) == IF u \in DOMAIN pl.users THEN pl.users[u].n ELSE HField(pl, "users_default")
 HForMessage(pl, t) == IF t \in DOMAIN pl.events THEN pl.events[t].n ELSE HField(pl, "events_default")
-HForState(pl, t) == IF t \in DOMAIN pl.events THEN pl.events[t].n ELSE HField(pl, "state_default")
+\* "the power level required to send the given state event type": m.room.third_party_invite is authorized by the invite level
+\* alone (rule 7 comes before the rule that looks the type up in `events`)
+HForState(pl, t) == IF t = "m.room.third_party_invite" THEN HField(pl, "invite")
+                    ELSE IF t \in DOMAIN pl.events THEN pl.events[t].n ELSE HField(pl, "state_default")
 HNotifRoom(pl) == IF "room" \in DOMAIN pl.notifications THEN pl.notifications["room"].n ELSE 50
 
 HCanBanUser(pl, a, t) == HForUser(pl, a) >= HField(pl, "ban") /\ HForUser(pl, t) < HForUser(pl, a)
